@@ -6,9 +6,10 @@ EXTENDS MqttConnCap, Json, FiniteSets
 
 CONSTANT MaxStepsC
 VARIABLES out, k,
-          sst     \* (parked schedules only) [ConnsC -> "new" | "started" | "finished" | "ended"]
+          sst,    \* (parked schedules only) [ConnsC -> "new" | "started" | "acking" | "finished" | "ended"]
+          pslow   \* (parked schedules only) the connections whose client is slow to read its CONNACK
 
-GInit == CInit /\ k = 0 /\ out = ToJson([a |-> "init", cap |-> Cap]) /\ sst = [c \in ConnsC |-> "new"]
+GInit == CInit /\ k = 0 /\ out = ToJson([a |-> "init", cap |-> Cap]) /\ sst = [c \in ConnsC |-> "new"] /\ pslow = {}
 GTry == \E c \in ConnsC :
           /\ st[c] = "new"
           /\ ~(IdOf[c] \in DOMAIN held /\ N >= Cap)
@@ -19,8 +20,8 @@ GEnd == \E c \in ConnsC :
           /\ st[c] = "up" /\ st' = [st EXCEPT ![c] = "gone"]
           /\ Release(c)
           /\ out' = ToJson([a |-> "end", c |-> c, n |-> Cardinality(DOMAIN held')])
-GNext == k < MaxStepsC /\ k' = k + 1 /\ (GTry \/ GEnd) /\ UNCHANGED sst
-GSpec == GInit /\ [][GNext]_<<cvars, out, k, sst>>
+GNext == k < MaxStepsC /\ k' = k + 1 /\ (GTry \/ GEnd) /\ UNCHANGED <<sst, pslow>>
+GSpec == GInit /\ [][GNext]_<<cvars, out, k, sst, pslow>>
 
 (* ---- schedules with attempts parked between the early check and the registration ----            *)
 (* The Connect (authentication) pipeline of the harness is a gate: start(c) sends c's CONNECT and       *)
@@ -29,14 +30,23 @@ GSpec == GInit /\ [][GNext]_<<cvars, out, k, sst>>
 (* accepted and returns when the broker has torn it down.  The outcome of an attempt is not predicted       *)
 (* here (a takeover at the cap may be refused or accepted): the harness logs inv / ret / close / gone /      *)
 (* sample events and MqttConnCap_Trace looks for a linearisation the contract allows.                        *)
+(* A client can be slow to read its CONNACK (start with slow = TRUE: an unbuffered connection whose client     *)
+(* does not read): release(c) then returns when the broker is blocked writing c's CONNACK - the attempt has    *)
+(* been decided, its answer is pending - and take(c) lets the client read it.  Other attempts are started,       *)
+(* released and ended while the CONNACK is pending.                                                               *)
 PInit == GInit
-PStart(c)   == /\ sst[c] = "new" /\ Cardinality({x \in ConnsC : sst[x] = "started"}) < 3
-               /\ sst' = [sst EXCEPT ![c] = "started"] /\ out' = ToJson([a |-> "start", c |-> c, id |-> IdOf[c]])
-PRelease(c) == sst[c] = "started" /\ sst' = [sst EXCEPT ![c] = "finished"] /\ out' = ToJson([a |-> "release", c |-> c])
-PEnd(c)     == sst[c] = "finished" /\ sst' = [sst EXCEPT ![c] = "ended"] /\ out' = ToJson([a |-> "end", c |-> c])
+Busy == Cardinality({x \in ConnsC : sst[x] \in {"started", "acking"}})
+PStart(c)   == /\ sst[c] = "new" /\ Busy < 3
+               /\ sst' = [sst EXCEPT ![c] = "started"]
+               /\ \E sl \in BOOLEAN : /\ pslow' = (IF sl THEN pslow \cup {c} ELSE pslow)
+                                       /\ out' = ToJson([a |-> "start", c |-> c, id |-> IdOf[c], slow |-> sl])
+PRelease(c) == /\ sst[c] = "started" /\ sst' = [sst EXCEPT ![c] = IF c \in pslow THEN "acking" ELSE "finished"]
+               /\ out' = ToJson([a |-> "release", c |-> c]) /\ UNCHANGED pslow
+PTake(c)    == sst[c] = "acking" /\ sst' = [sst EXCEPT ![c] = "finished"] /\ out' = ToJson([a |-> "take", c |-> c]) /\ UNCHANGED pslow
+PEnd(c)     == sst[c] = "finished" /\ sst' = [sst EXCEPT ![c] = "ended"] /\ out' = ToJson([a |-> "end", c |-> c]) /\ UNCHANGED pslow
 PNext == /\ k < MaxStepsC /\ k' = k + 1 /\ UNCHANGED cvars
-         /\ \E c \in ConnsC : PStart(c) \/ PRelease(c) \/ PEnd(c)
-PSpec == PInit /\ [][PNext]_<<cvars, out, k, sst>>
+         /\ \E c \in ConnsC : PStart(c) \/ PRelease(c) \/ PTake(c) \/ PEnd(c)
+PSpec == PInit /\ [][PNext]_<<cvars, out, k, sst, pslow>>
 ParkConns == {"k1", "k2", "k3", "k4", "k5", "k6"}
 ParkId == [c \in ParkConns |-> IF c \in {"k1", "k3", "k5"} THEN "a" ELSE IF c \in {"k2", "k6"} THEN "b" ELSE "c"]
 
